@@ -170,11 +170,15 @@ def textCompAcc (c : Option TextComp) : Bool :=
   | none => true
   | some c => TextAttrsOf.zipAll accAttr textSpec c.attrs
 
+/-- a header's `col_rel_width`: its own (validated by `validate_positive_value`) or a copy of the body's resolved
+widths (`_inherit_header_widths`; `[]` for a frame without columns) — positive entries either way -/
+def widthsPos (w : Option (List Rat)) : Bool := posW (w.getD [])
+
 /-- `RTFColumnHeader` (`TableAttributes` validators) -/
 def headerAcc (h : Option Header) : Bool :=
   match h with
   | none => true
-  | some h => TblAttrsOf.zipAll accAttr tblSpec h.attrs && widthsAcc h.colRelWidth
+  | some h => TblAttrsOf.zipAll accAttr tblSpec h.attrs && widthsPos h.colRelWidth
 
 /-- `RTFFootnote`, `RTFSource` -/
 def footAcc (f : Option Foot) : Bool :=
